@@ -414,6 +414,16 @@ def q6_expansion_order(ctx) -> None:
             ctx.violation("Q6", loop, f"strategies are taken from `{norm(it)}` instead of self.expansion_strats[idx]")
             continue
         idx_txt = norm(it.slice)
+        if not isinstance(it.slice, ast.Name):
+            from .tablemethod import affine
+            a = affine(it.slice)
+            names = [k for k in (a or {}) if k != "1"]
+            if a is not None and len(names) == 1 and a[names[0]] == 1 and a.get("1", 0) != 0:
+                ctx.violation("Q6", loop, f"the strategies handed out for the label taken from deque `{names[0]}` are those of set `{idx_txt}`: every expansion set is applied at the "
+                              "wrong stage (and the last one never, or the first one twice)")
+                idx_txt = names[0]
+            else:
+                raise AnalysisError(f"Q6: expansion set index `{idx_txt}` not understood")
         if not (isinstance(strategies, ast.Tuple) and len(strategies.elts) == 1 and norm(strategies.elts[0]) == norm(loop.target)):
             ctx.violation("Q6", y, "each expansion packet must carry exactly the loop's strategy")
         # idx and label come from the first non-empty deque in index order
@@ -558,3 +568,36 @@ def q8_add(ctx) -> None:
         else:
             ctx.violation("Q8", c, "a label with outstanding inferral or initial work may bypass the working queue "
                           f"(guards: {[(norm(e), p) for e, p in gs]})")
+
+
+# ------------------------------------------------------------------------ Q11
+MUTABLE_MAKERS = {"deque", "list", "set", "dict", "defaultdict", "Counter", "OrderedDict"}
+
+
+def q11_distinct_containers(ctx) -> None:
+    """Each expansion set has its own deque (and every other per-slot container its own
+    object): a tuple / list built by repeating one mutable element, `(deque(),) * n`, holds
+    the *same* object n times, so a label put into one level is in all of them."""
+    P = ctx.P
+    cls = P.need_class(Q)
+    n = 0
+    for m in cls.methods.values():
+        for x in walk_local(m.node):
+            if isinstance(x, ast.BinOp) and isinstance(x.op, ast.Mult):
+                for side in (x.left, x.right):
+                    if isinstance(side, (ast.Tuple, ast.List)):
+                        for e in side.elts:
+                            mutable = isinstance(e, (ast.List, ast.Dict, ast.Set, ast.ListComp, ast.DictComp, ast.SetComp)) or \
+                                (isinstance(e, ast.Call) and norm(e.func).split(".")[-1] in MUTABLE_MAKERS)
+                            if mutable:
+                                n += 1
+                                ctx.violation("Q11", x, f"`{norm(x)[:80]}` repeats one mutable object: all positions are the same container, so what is queued at one stage is "
+                                              "queued at every stage")
+    init = P.need_method(Q, "__init__", own=True)
+    ctx.analysed(init)
+    fresh = [g for g in walk_local(init.node) if isinstance(g, (ast.GeneratorExp, ast.ListComp)) and isinstance(g.elt, ast.Call) and norm(g.elt.func).split(".")[-1] == "deque"
+             and len(g.generators) == 1 and norm(g.generators[0].iter) == "self.expansion_strats"]
+    if fresh:
+        ctx.ok("Q11", "curr_level holds one fresh deque per expansion set")
+    elif n == 0:
+        ctx.violation("Q11", init.node, "DefaultQueue.__init__ must build curr_level with one fresh deque() per expansion set", construct=f"{Q}.__init__ curr_level")
